@@ -56,9 +56,9 @@ func simpleField(rng *mon.RNG, kind string) string {
 	b := fieldBounds[kind]
 	switch kind {
 	case "mon":
-		return rng.PickStr("*", "*", "*/2", "1-12")
+		return rng.PickStr("*", "*", "*/2", "1-12", pipelineSpelling(rng, monthNames[rng.Intn(12)]), pipelineSpelling(rng, "jan")+"-"+pipelineSpelling(rng, monthNames[rng.Intn(12)]))
 	case "dow":
-		return rng.PickStr("*", "*", "1-5", "?", "sun")
+		return rng.PickStr("*", "*", "1-5", "?", "sun", pipelineSpelling(rng, dowNames[rng.Intn(7)]), pipelineSpelling(rng, "sun")+"-"+pipelineSpelling(rng, dowNames[rng.Intn(7)]))
 	case "dom":
 		return rng.PickStr("*", "*", fmt.Sprint(rng.Range(1, 28)), "?")
 	}
